@@ -998,6 +998,16 @@ func TestProp(t *testing.T) {
 	})
 }
 
+// FuzzHistory: the generator and the check of TestProp under the native fuzzer
+// (thorough tier; coverage of the registration code steers the histories).
+func FuzzHistory(f *testing.F) {
+	evid.FuzzSeeds(f, 24, 4096)
+	f.Fuzz(rapid.MakeFuzz(func(t *rapid.T) {
+		c := genCase(t)
+		evid.FuzzRun(t, c, func() evid.Outcome { return checkCase(c) })
+	}))
+}
+
 // TestPinned keeps the shapes behind fixed findings and the repository's own
 // documented rejections as plain regression cases.
 func TestPinned(t *testing.T) {
